@@ -1219,7 +1219,18 @@ class AsyncBackgroundBatcher(Generic[A_contra, R_co]):
                 async for key, result in self.func(args):
                     fut = futs.pop(key)
                     if isinstance(result, Exception):
-                        fut.set_exception(result)
+                        try:
+                            fut.set_exception(result)
+                        except TypeError:
+                            # StopIteration can't be raised into a Future,
+                            # answer with an error that carries it instead
+                            # of leaving the caller waiting forever
+                            err = RuntimeError(
+                                f"Result for {key!r} can't be raised: "
+                                f"{result!r}"
+                            )
+                            err.__cause__ = result
+                            fut.set_exception(err)
                     else:
                         fut.set_result(result)
         except Exception as e:
